@@ -47,7 +47,7 @@ ASSUMPTIONS = [
 ]
 PROBES = ["overwrite_longer_then_shorter", "overwrite_other_kind", "txt_single_column", "txt_single_row", "txt_1x1", "txt_default_format",
           "net2d_empty", "net2d_no_header", "net3d_no_domain", "net3d_with_domain", "io_error_on_open", "io_error_on_write", "read_after_failed_write_skipped",
-          "three_paths", "polygon_6_vertices", "txt_integer_column", "txt_integer_first_then_float", "net2d_constrained_before_write", "net3d_georeferenced_coordinates"]
+          "three_paths", "polygon_6_vertices", "txt_integer_column", "txt_integer_first_then_float", "net2d_constrained_before_write", "net3d_georeferenced_coordinates", "net2d_tagged_fractures"]
 
 
 # --------------------------------------------------------------------------------------
@@ -187,7 +187,16 @@ def run_history_c47(ch, tr: Trace) -> None:
             p = ch.choice(paths)
             segs = gen_net2d(ch)
             header = ch.flag(2, 3)
-            fracs = [pp.LineFracture(s) for s in segs]
+            # user tags on some or all fractures (extra rows of the network's edge array; the csv holds geometry only)
+            tag_mode = ch.draw(4)  # 0, 1: none; 2: all tagged; 3: partly tagged
+            fracs = []
+            for j, sg in enumerate(segs):
+                if tag_mode == 2 or (tag_mode == 3 and j % 2 == 0):
+                    fracs.append(pp.LineFracture(sg, tags=[ch.rng(1, 5)] + ([ch.rng(1, 5)] if ch.flag(1, 3) else [])))
+                else:
+                    fracs.append(pp.LineFracture(sg))
+            if segs and tag_mode >= 2:
+                tr.probe("net2d_tagged_fractures")
             dom = pp.Domain({"xmin": -1, "xmax": 2, "ymin": -1, "ymax": 2})
             net = pp.create_fracture_network(fracs, dom) if fracs else pp.fracs.fracture_network_2d.FractureNetwork2d(domain=dom)
             if segs and ch.flag(1, 3):
